@@ -46,6 +46,12 @@ func main() {
 			tier = os.Args[2]
 		}
 		os.Exit(loadfam.CheckMerge(os.Args[1], tier))
+	case "C10":
+		tier := "quick"
+		if len(os.Args) > 2 {
+			tier = os.Args[2]
+		}
+		os.Exit(loadfam.CheckC10(tier))
 	case "C15":
 		tier := "quick"
 		if len(os.Args) > 2 {
